@@ -126,6 +126,22 @@ def t_call_site(sess, n_grains, steps):
     pc = p.pc
     tag = f"call site[N={N}]"
     sess.satisfiable(f"{tag}: reach", pc)
+    orig_prove = sess.prove
+    first = {}
+
+    def prove(name, *a, **k):  # every failing call-site claim is replayed on the real update with apply_gbs wrapped
+        q = orig_prove(name, *a, **k)
+        if not q.holds and q.verdict == "sat":
+            ce = {"name": name, "case": {}, "cls": {"kind": "GBS call site / stored snapshot deviates", "claim": name.split(": ", 1)[-1][:80]}}
+            if not first:
+                first["n"] = name
+                ce["replay"] = "vf.props.C09:replay_call_site"
+            else:
+                ce["same_as"] = first["n"]
+            sess.cex.append(ce)
+        return q
+
+    sess.prove = prove
     sess.prove(f"{tag}: apply_gbs is called once per solver step", pc, z3.BoolVal(len(calls) == steps))
     for k, c in enumerate(calls):
         sess.prove(f"{tag}: step {k+1}: reference orientations are the snapshot stored at the start of the update (same object)", pc,
@@ -145,4 +161,58 @@ def t_call_site(sess, n_grains, steps):
     sess.prove(f"{tag}: exactly one snapshot appended", pc, z3.BoolVal(len(m.orientations) == 3 and len(m.fractions) == 3))
     sess.prove(f"{tag}: stored volumes are exactly the last GBS output (renormalisation is the identity on it)", pc, all_eq(m.fractions[-1], last["f_out"]))
     sess.prove(f"{tag}: stored orientations are exactly the last GBS output", pc, all_eq(m.orientations[-1], last["o_out"]))
+    sess.prove = orig_prove
     sample(sess, obligation="GBS call site", steps=steps, stored_f0=str(m.fractions[-1][0])[:200])
+
+
+def replay_call_site(case):
+    """Real update (JIT on, real LSODA) with the public pydrex.utils.apply_gbs wrapped: reference orientations must
+    be the snapshot stored at the start of the update at every solver step; the stored snapshot must be the last
+    GBS output; floored grains must end with exactly their start-of-update orientation."""
+    import numpy as np
+    import pydrex
+    from pydrex import core, utils
+
+    calls = []
+    real = utils.apply_gbs
+
+    def spy(orientations, fractions, thr, prev, n):
+        rec = {"prev": prev.copy(), "thr": thr, "n": n, "f_in": fractions.copy()}
+        out = real(orientations, fractions, thr, prev, n)
+        rec["o_out"], rec["f_out"] = out[0].copy(), out[1].copy()
+        calls.append(rec)
+        return out
+
+    utils.apply_gbs = spy
+    try:
+        m = pydrex.Mineral(n_grains=60, seed=11)
+        params = core.DefaultParams().as_dict()
+        params["number_of_grains"] = 60
+        params["gbs_threshold"] = 0.5
+        L = np.zeros((3, 3))
+        L[0, 2] = 2.0
+        Fm = np.eye(3)
+        problems = []
+        for step in range(3):
+            start = m.orientations[-1].copy()
+            calls.clear()
+            Fm = m.update_orientations(params, Fm, lambda t, x: L, (step * 0.3, (step + 1) * 0.3, lambda t: np.zeros(3)))
+            if not calls:
+                problems.append("apply_gbs never called")
+                continue
+            for k, c in enumerate(calls):
+                if not np.array_equal(c["prev"], start):
+                    problems.append(f"update {step} solver step {k}: reference orientations differ from the start-of-update snapshot")
+                    break
+                if c["thr"] != params["gbs_threshold"] or c["n"] != 60:
+                    problems.append(f"update {step}: wrong threshold / grain count passed to apply_gbs")
+                    break
+            last = calls[-1]
+            if not (np.allclose(m.fractions[-1], last["f_out"], rtol=0, atol=1e-15) and np.array_equal(m.orientations[-1], np.clip(last["o_out"], -1, 1))):
+                problems.append(f"update {step}: stored snapshot is not the last GBS output")
+            floored = last["f_in"] < params["gbs_threshold"] / 60
+            if floored.any() and not np.array_equal(m.orientations[-1][floored], start[floored]):
+                problems.append(f"update {step}: {int(floored.sum())} floored grains do not keep their start-of-update orientation")
+    finally:
+        utils.apply_gbs = real
+    return {"reproduced": bool(problems), "detail": problems[:4] or "call site behaves as specified", "solver_steps_last_update": len(calls)}
